@@ -313,8 +313,7 @@ func (d Decimal) Float(f *big.Float) *big.Float {
 		return f.SetInf(d.Signbit())
 	}
 
-	sig, exp := d.decompose()
-	exp -= exponentBias
+	sig, _ := d.decompose()
 
 	if f == nil {
 		f = new(big.Float).SetPrec(128)
@@ -322,39 +321,21 @@ func (d Decimal) Float(f *big.Float) *big.Float {
 		f.SetPrec(128)
 	}
 
-	if sig[1] == 0 {
-		f.SetUint64(sig[0])
-	} else {
-		bigsig := new(big.Int).SetUint64(sig[1])
-		bigsig.Lsh(bigsig, 64).Or(bigsig, new(big.Int).SetUint64(sig[0]))
+	if sig[0]|sig[1] == 0 {
+		f.SetUint64(0)
 
-		f.SetInt(bigsig)
-	}
+		if d.Signbit() {
+			f.Neg(f)
+		}
 
-	if d.Signbit() {
-		f.Neg(f)
-	}
-
-	if exp == 0 {
 		return f
 	}
 
-	var bigexp *big.Int
-	if exp > 0 {
-		bigexp = big.NewInt(int64(exp))
-	} else {
-		bigexp = big.NewInt(int64(exp * -1))
-	}
-
-	bigexp.Exp(big.NewInt(10), bigexp, nil)
-
-	if exp > 0 {
-		f.Mul(f, new(big.Float).SetInt(bigexp))
-	} else {
-		f.Quo(f, new(big.Float).SetInt(bigexp))
-	}
-
-	return f
+	// Rounding the significand to f's precision and then scaling it by a
+	// (rounded) power of ten rounds twice, and the result then depends on which
+	// of the equivalent encodings of the value d happens to use. The exact
+	// value is rounded once instead.
+	return f.SetRat(d.Rat(nil))
 }
 
 // Float32 converts d into a float32.
